@@ -24,6 +24,7 @@ def gen_segment(rng, allow_empty):
     phase = 0           # 0 running, 1 flag set, 2 empty element enqueued, 3 stop()/join done
     empty_at = rng.randrange(0, 12) if allow_empty and rng.random() < 0.5 else -1
     nops = rng.randrange(1, 30)
+    blank_used = False
     for i in range(nops):
         c = rng.random()
         if i == empty_at:
@@ -36,7 +37,12 @@ def gen_segment(rng, allow_empty):
             p = rng.randrange(1, npid + 1)
             n = cnt.get(p, 0)
             cnt[p] = n + 1
-            out.append('%s %d %d %d p%d-%d' % ('enq' if rng.random() < 0.12 else 'send', p, rng.randrange(5), rng.choice((0, 0, 1, 7)), p, n))
+            # 6%: the text ends with a line feed; once in a while the text is a line feed only (a blank separator line) - `^` = LF
+            lf = flags != '-' and rng.random() < 0.06
+            text = 'p%d-%d%s' % (p, n, '^' if lf else '')
+            if 's' in flags and not blank_used and rng.random() < 0.02:
+                text = '^'; blank_used = True
+            out.append('%s %d %d %d %s' % ('enq' if rng.random() < 0.12 else 'send', p, rng.randrange(5), rng.choice((0, 0, 1, 7)), text))
         elif c < 0.80:
             out.append('run')
         elif c < 0.86:
@@ -176,17 +182,30 @@ class Oracle:
             return 'the destructor (stop()) did not return'
         if body == '?':
             return None
-        flines = [] if body == '-' else body.split('|')
+        phys = [] if body == '-' else body.split('|')
+        # a submitted text ending in a line feed (`^` in the script) occupies its own physical line plus an empty one
+        flines, i = [], 0
+        while i < len(phys):
+            fl = phys[i]
+            pr0 = parse_file_line(fl, self.flags) if fl != '~' else None
+            if pr0 is not None and (pr0[3] + '^') in self.calls and i + 1 < len(phys) and phys[i + 1] == '~':
+                flines.append((fl, pr0[3] + '^'))
+                i += 2
+            else:
+                flines.append((fl, None))
+                i += 1
         seen = {}
         last = {}
         cnt = {True: 0, False: 0}
-        for fl in flines:
+        for fl, logical in flines:
             if fl == '~':
                 return 'an empty line was written'
             pr = parse_file_line(fl, self.flags)
             if pr is None:
                 return 'unparseable line %r' % fl
             seq, d, lv, text = pr
+            if logical is not None:
+                text = logical
             c = self.calls.get(text)
             if c is None:
                 return 'a line that was never submitted was written: %r' % fl
